@@ -34,7 +34,7 @@ SPEC = {
              "dynamic-field target x B built before or after A's mutation; F46 cases) plus seeded random schemas (2-5 fields, "
              "typed and untyped list/dict with literal, callable or no default, item schemas / config types reused, dynamic "
              "schemas) with 1-5 live configurations and histories of 2-9 (thorough: 2-16) operations, mostly on configuration 0, "
-             "builds interleaved; non-trivial = at least two configurations and at least one operation that did not raise; "
+             "builds interleaved, cross-configuration assignments (cfg_i.x = value read from cfg_j.x, for scalar fields and typed list/dict fields of scalars, followed by in-place mutations on either side) and observers (to_tree, dumps(json), asdict, validate, get_all_fields: must change nothing, model = no-op); non-trivial = at least two configurations and at least one operation that did not raise; "
              "distinct = distinct (schema, history). hmerge: 36-case matrix + random map pairs; non-trivial = a shared key"),
     "trusted_base": [KERNEL, "Print Assumptions: closed under the global context (no axioms)", TIE, HARNESS,
                      "modelled, not verified: validation of scalar items is the identity (generators stay well-typed; "
@@ -45,5 +45,9 @@ SPEC = {
     "assumptions": ["argument values handed to the library are fresh (the caller does not insert one object twice: DESIGN.md 3.4)",
                     "schema text inside the model (spec_ok): bare Field defaults are scalars or callables; no Config objects "
                     "inside a default (open finding F46)",
-                    "Config objects passed as values (instead of maps) are kept as they are (F29), never generated except via F46"],
+                    "Config objects passed as values (instead of maps) are kept as they are (F29), never generated except via F46",
+                    "cross-configuration assignment is generated only where the library copies the whole value (scalars, typed "
+                    "list/dict of scalars); in the model it is OpSet with a fresh copy of the value read (xstep, correspondence only). "
+                    "Assigning an UNTYPED list/dict read from another configuration stores the same object, and a typed container "
+                    "of containers shares its inner items: caller-made aliasing, outside the property (DESIGN.md 3.4)"],
 }
